@@ -617,7 +617,10 @@ impl DeriveShape for Expression {
                         if let Shape::TypeErr(_, _) = &shape {
                             // Don't update symbol table on type errors
                         } else {
-                            if let Shape::Hole(_) = &left_shape {
+                            // `env` is the process environment: its fields are not
+                            // known statically, so one read must not close its shape
+                            // for the next read of another variable.
+                            if let (Shape::Hole(_), false) = (&left_shape, pi.val.as_ref() == "env") {
                                 let inferred = infer_container_shape_from_dot(
                                     &left_shape,
                                     &def.right,
